@@ -1,6 +1,6 @@
 //! C09: Mappings::merge.
 //!
-//! ops  {"op":"merge","A":tree(s,a),"B":tree(s,b)}  -> {"ok":b,"v":tree(s,a,b)|[]}
+//! ops  {"op":"merge","A":tree(s,a),"B":tree(s,b),"revB":bool}  -> {"ok":b,"v":tree(s,a,b)|[]}     (revB: B's entries inserted in the opposite order)
 //! Entries are stored under the key their JSON key spells, so trees whose content disagrees with the key
 //! (conflicting descriptor / parameter index under one key) reach the real code as such.
 use anyhow::{Context, Result};
@@ -16,7 +16,7 @@ pub fn exec(v: &Value) -> Result<Value> {
 	match v["op"].as_str().context("op")? {
 		"merge" => {
 			let a: Mappings<2, (Ns, Ns)> = json_to_tree_keyed(&v["A"])?;
-			let b: Mappings<2, (Ns, Ns)> = json_to_tree_keyed(&v["B"])?;
+			let b: Mappings<2, (Ns, Ns)> = json_to_tree_keyed_rev(&v["B"], v["revB"].as_bool().unwrap_or(false))?;
 			Ok(res_tree(Mappings::<2, (Ns, Ns, Ns)>::merge(&a, &b)))
 		},
 		op => anyhow::bail!("C09: unknown op {op}"),
@@ -40,7 +40,7 @@ pub fn gen(seed: u64, n: usize) -> Result<Vec<Value>> {
 		for _ in 0..r.gen_range(0..3) { structural_edit(&mut r, &cfg, &mut a); }
 		for _ in 0..r.gen_range(0..3) { structural_edit(&mut r, &cfg, &mut b); }
 		if r.gen_bool(0.1) { b = gen_tree(&mut r, &cfg); b["ns"][1] = json!("nsb"); }
-		out.push(json!({"op": "merge", "A": a, "B": b}));
+		out.push(json!({"op": "merge", "A": a, "B": b, "revB": r.gen_bool(0.5)}));
 	}
 	Ok(out)
 }
